@@ -309,6 +309,7 @@ private:
   static void check_serial_version(uint8_t serial_version);
   static void check_family_id(uint8_t family_id);
   static void check_size(uint8_t lg_cur_size, uint8_t lg_max_size);
+  static void check_num_items(uint32_t num_items, uint8_t lg_cur_size);
 
   // version for integral signed type
   template<typename WW = W, typename std::enable_if<std::is_integral<WW>::value && std::is_signed<WW>::value, int>::type = 0>
